@@ -191,11 +191,10 @@ public:
 		{
 			for(j=0; j<3; j++)
 			{
-				for(ab=0, k=0; k<2; k++)
+				for(ab=0, k=0; k<3; k++)
 					ab += A(i,k)*B(k,j);
 				C(i,j) = ab;
 	  		}
-			C(i,2) += A(i,2);
 		}
 		return C;
 	}
